@@ -155,6 +155,22 @@ func (w *World) notef(f string, a ...interface{}) {
 	fmt.Fprintf(os.Stderr, "NOTE "+f+"\n", a...)
 }
 
+var notedOnce = map[string]bool{}
+
+func (w *World) errorOnce(msg string) {
+	if !notedOnce["E:"+msg] {
+		notedOnce["E:"+msg] = true
+		w.Errors = append(w.Errors, msg)
+	}
+}
+
+func (w *World) noteOnce(msg string) {
+	if !notedOnce[msg] {
+		notedOnce[msg] = true
+		fmt.Fprintln(os.Stderr, "NOTE "+msg)
+	}
+}
+
 // ---------- constants ----------
 
 func constBig(c *ssa.Const) *big.Int {
